@@ -53,6 +53,13 @@ Lemma accts_addfee c f : l_accts (c_top (addfee c f)) = l_accts (c_top c). Proof
 Lemma accts_addtx c t l s le : l_accts (c_top (addtx c t l s le)) = l_accts (c_top c). Proof. reflexivity. Qed.
 Lemma fees_addtx c t l s le : l_fees (c_top (addtx c t l s le)) = l_fees (c_top c). Proof. reflexivity. Qed.
 
+Lemma parents_put_holding c a i d : c_parents (put_holding_delta c a i d) = c_parents c. Proof. reflexivity. Qed.
+Lemma parents_put_params c a i d : c_parents (put_params_delta c a i d) = c_parents c. Proof. reflexivity. Qed.
+Lemma parents_set_creatable c i v : c_parents (set_creatable c i v) = c_parents c. Proof. reflexivity. Qed.
+Lemma lookup_put_holding c a i d b : lookup (put_holding_delta c a i d) b = lookup c b. Proof. reflexivity. Qed.
+Lemma lookup_put_params c a i d b : lookup (put_params_delta c a i d) b = lookup c b. Proof. reflexivity. Qed.
+Lemma lookup_set_creatable c i v b : lookup (set_creatable c i v) b = lookup c b. Proof. reflexivity. Qed.
+
 (* ------------------------------------------------------------------ lookup / put *)
 Lemma lookup_put_same c a x : lookup (put c a x) a = x.
 Proof. unfold lookup, put. cbn. now rewrite afind_aupsert_same. Qed.
@@ -142,6 +149,9 @@ Section Frame.
   Hypothesis Htrans : forall a b c, R a b -> R b c -> R a c.
   Hypothesis Hput : forall c a x, R c (put c a x).
   Hypothesis Hfee : forall c fee, R c (addfee c fee).
+  Hypothesis Hph : forall c a i d, R c (put_holding_delta c a i d).
+  Hypothesis Hpp : forall c a i d, R c (put_params_delta c a i d).
+  Hypothesis Hcr : forall c i v, R c (set_creatable c i v).
 
   Definition keeps {A} (m : M A) : Prop := forall c, R c (fst (m c)).
 
@@ -152,6 +162,17 @@ Section Frame.
   Lemma keeps_modified : keeps m_modified. Proof. intro c. apply Hrefl. Qed.
   Lemma keeps_put a x : keeps (m_put a x). Proof. intro c. apply Hput. Qed.
   Lemma keeps_addfee fee : keeps (m_addfee fee). Proof. intro c. apply Hfee. Qed.
+  Lemma keeps_get_params a i : keeps (m_get_params a i). Proof. intro c. apply Hrefl. Qed.
+  Lemma keeps_get_holding a i : keeps (m_get_holding a i). Proof. intro c. apply Hrefl. Qed.
+  Lemma keeps_get_creator i : keeps (m_get_creator i). Proof. intro c. apply Hrefl. Qed.
+  Lemma keeps_counter : keeps m_counter. Proof. intro c. apply Hrefl. Qed.
+  Lemma keeps_put_params a i p : keeps (m_put_params a i p). Proof. intro c. apply Hpp. Qed.
+  Lemma keeps_put_holding a i h : keeps (m_put_holding a i h). Proof. intro c. apply Hph. Qed.
+  Lemma keeps_del_params a i : keeps (m_del_params a i).
+  Proof. intro c. unfold m_del_params. destruct (in_mods c a); [apply Hpp | apply Hrefl]. Qed.
+  Lemma keeps_del_holding a i : keeps (m_del_holding a i).
+  Proof. intro c. unfold m_del_holding. destruct (in_mods c a); [apply Hph | apply Hrefl]. Qed.
+  Lemma keeps_set_creatable i v : keeps (m_set_creatable i v). Proof. intro c. apply Hcr. Qed.
   Lemma keeps_checkdup P rnd t s l : keeps (m_checkdup P rnd t s l).
   Proof. intro c. unfold m_checkdup. destruct (checkdup P rnd c t s l); apply Hrefl. Qed.
 
@@ -182,6 +203,15 @@ Section Frame.
       | |- keeps m_modified => apply keeps_modified
       | |- keeps (m_checkdup _ _ _ _ _) => apply keeps_checkdup
       | |- keeps (when _ _) => apply keeps_when
+      | |- keeps (m_get_params _ _) => apply keeps_get_params
+      | |- keeps (m_get_holding _ _) => apply keeps_get_holding
+      | |- keeps (m_get_creator _) => apply keeps_get_creator
+      | |- keeps m_counter => apply keeps_counter
+      | |- keeps (m_put_params _ _ _) => apply keeps_put_params
+      | |- keeps (m_put_holding _ _ _) => apply keeps_put_holding
+      | |- keeps (m_del_params _ _) => apply keeps_del_params
+      | |- keeps (m_del_holding _ _) => apply keeps_del_holding
+      | |- keeps (m_set_creatable _ _) => apply keeps_set_creatable
       end.
 
   Lemma keeps_move_side E d a amt r : keeps (move_side E d a amt r).
@@ -215,9 +245,48 @@ Section Frame.
     destruct np; [destruct (p_nonpart (e_P E))|]; kp.
   Qed.
 
-  Lemma keeps_apply_transaction E tx : keeps (apply_transaction E tx).
+  Lemma keeps_some_or_fail {A} (o : option A) : keeps (some_or_fail o).
+  Proof. destruct o; cbn [some_or_fail]; kp. Qed.
+
+  Lemma keeps_asset_params i : keeps (asset_params i).
+  Proof. unfold asset_params. kp; apply keeps_some_or_fail. Qed.
+
+  Lemma keeps_asset_config E s asset cp ctr : keeps (asset_config E s asset cp ctr).
+  Proof.
+    unfold asset_config. destruct (asset =? 0); kp; [apply keeps_asset_params|].
+    destruct a as [params creator]. kp. destruct (ap_is_zero cp); kp.
+  Qed.
+
+  Lemma keeps_take_out a asset amount bp : keeps (take_out a asset amount bp).
+  Proof.
+    unfold take_out. destruct (amount =? 0); kp; [apply keeps_some_or_fail|].
+    destruct (osub 64 _ amount) as [v o]. destruct o; kp.
+  Qed.
+
+  Lemma keeps_put_in a asset amount bp : keeps (put_in a asset amount bp).
+  Proof.
+    unfold put_in. destruct (amount =? 0); kp; [apply keeps_some_or_fail|].
+    destruct (oadd 64 _ amount) as [v o]. destruct o; kp.
+  Qed.
+
+  Lemma keeps_asset_transfer E s asset amt asender rcv closeto : keeps (asset_transfer E s asset amt asender rcv closeto).
+  Proof.
+    unfold asset_transfer. apply keeps_bind.
+    - destruct (asender =? 0); kp. apply keeps_asset_params.
+    - intros [source clawback]. kp.
+      + destruct a; kp. apply keeps_asset_params.
+      + apply keeps_take_out.
+      + apply keeps_put_in.
+      + destruct (closeto =? 0); kp; first [apply keeps_some_or_fail | apply keeps_take_out | apply keeps_put_in].
+  Qed.
+
+  Lemma keeps_asset_freeze s asset acct fr : keeps (asset_freeze s asset acct fr).
+  Proof. unfold asset_freeze. kp; first [apply keeps_asset_params | apply keeps_some_or_fail]. Qed.
+
+  Lemma keeps_apply_transaction E tx ctr : keeps (apply_transaction E tx ctr).
   Proof.
     unfold apply_transaction. kp; [apply keeps_take_fee | apply keeps_rekey |].
-    destruct (t_body tx); kp; [apply keeps_payment | apply keeps_keyreg].
+    destruct (t_body tx); kp;
+      first [apply keeps_payment | apply keeps_keyreg | apply keeps_asset_config | apply keeps_asset_transfer | apply keeps_asset_freeze].
   Qed.
 End Frame.
